@@ -54,6 +54,10 @@ func propC10(c *Ctx, r *Report) {
 	c.runParserLoops(r, "abort.parser-loop")
 	r.floor("parser.open-loops", 10)
 	r.floor("abort.functions", 3000)
+	r.Clauses = append(r.Clauses, staleHandlesClause+" - a stale handle indexes past the end of the compacted arena (panic on var<private> v: S = S(vec2(1, 2), 3))")
+	c.runStaleHandles(r, "phase.stalehandles", "wgsl/internal/lower", nil)
+	r.floor("phase.renumberingTails", 1)
+	r.floor("phase.afterRenumbering", 8)
 	r.Clauses = append(r.Clauses, "define after initializer (E7, go/cfg): in the parser's dependency walk and the lowerer, no call that consumes the initializer or type of a declaration node (d.Init / d.Type as an argument) is reachable in the control-flow graph from a store that defines the declaration's name (a store into a string-keyed map with key d.Name) - the initializer of let/var/const/override is resolved outside the scope of the name it declares (let x = x + 1 reads the outer x; a self-referential initializer can otherwise recurse without end)")
 	c.runDefAfterInit(r, "scope.defafterinit", inPkgs("wgsl/internal/lower", parserRel))
 	r.floor("scope.definitions", 12)
